@@ -102,6 +102,9 @@ func (s *ModelServer) ListModes(_ context.Context, request *traits.ListModesRequ
 	if err := decodePageToken(request.PageToken, pageToken); err != nil {
 		return nil, err
 	}
+	if err := checkPageSize(request.GetPageSize()); err != nil {
+		return nil, err
+	}
 
 	lastKey := pageToken.GetLastResourceName() // the key() of the last item we sent
 	pageSize := capPageSize(int(request.GetPageSize()))
